@@ -199,6 +199,14 @@ func sharedOp(s *jsonapi.Schema, op string, p int) {
 		if str := u.String(); !strings.Contains(str, "filter=lbl-"+id+"&") && !strings.HasSuffix(str, "filter=lbl-"+id) {
 			panic("the text of the URL carries another request's filter label: " + str)
 		}
+		// the very same text as every other request sends (field names not in alphabetical order): what
+		// is parsed from it is nevertheless this request's own
+		uc, err := jsonapi.NewURLFromRaw(s, "/t1?fields[t1]=o,m,a&fields[t2]=p,b&page[size]=3&sort=n")
+		must(err)
+		// (printing it puts its field lists in order, in place: a write to what must be the request's own)
+		if str := uc.String(); !strings.Contains(str, "a%2Cm%2Co") {
+			panic("the text of a URL parsed from a common text: " + str)
+		}
 		// a filter that is a tree of conditions, three levels deep, with this request's own value in it
 		tree := `{"o":"and","v":[{"f":"a","o":"=","v":"` + id + `"},{"o":"or","v":[{"f":"a","o":"!=","v":"q"},{"o":"and","v":[{"o":"or","v":[]}]}]}]}`
 		u2, err := jsonapi.NewURLFromRaw(s, "/t1?filter="+neturl.QueryEscape(tree))
